@@ -51,11 +51,11 @@ template <typename ResultContainer, typename Source>
     fcppt::either::failure_type<fcppt::type_traits::value_type<std::remove_cvref_t<Source>>>,
     ResultContainer>
 sequence(Source &&_source) requires
-    fcppt::either::is_object_v<fcppt::type_traits::value_type<std::remove_const_t<Source>>> &&
+    fcppt::either::is_object_v<fcppt::type_traits::value_type<std::remove_cvref_t<Source>>> &&
     std::is_same_v<
         fcppt::type_traits::value_type<ResultContainer>,
         fcppt::either::success_type<
-            fcppt::type_traits::value_type<std::remove_const_t<Source>>>>
+            fcppt::type_traits::value_type<std::remove_cvref_t<Source>>>>
 {
   using source_type = std::remove_reference_t<Source>;
 
